@@ -11,29 +11,6 @@ def fmtDate : Str := ['%', 'Y', '-', '%', 'm', '-', '%', 'd']
 def fmtTime : Str := ['%', 'H', ':', '%', 'M', ':', '%', 'S']
 def fmtDateTime : Str := fmtDate ++ 'T' :: fmtTime
 
-/-- what `strptime` returns once the first match is known -/
-theorem strptime_of_first (e : Env) (s fmt : Str) (items : List FItem) (f : TmF)
-    (hc : compileFmt e fmt false = .ok items) (hn : dirsNodup items = true)
-    (hm : firstMatch e items s {} = some (f, [])) :
-    strptime e s fmt =
-      (if f.year.getD 1900 < 1 || f.second.getD 0 > 59 ||
-          !validateDate (f.year.getD 1900) (f.month.getD 1) (f.day.getD 1) then .err
-       else .ok ⟨f.year.getD 1900, f.month.getD 1, f.day.getD 1, f.hour.getD 0, f.minute.getD 0,
-         f.second.getD 0, f.frac.getD 0⟩) := by
-  unfold strptime
-  simp only [hc, hn, Bool.not_true, Bool.false_eq_true, if_false]
-  unfold firstMatch at hm
-  cases hl : matchItems e items s {} with
-  | nil => simp [hl] at hm
-  | cons x xs =>
-    simp only [hl, List.head?_cons, Option.some.injEq] at hm
-    subst hm
-    simp
-
-theorem dash_colon_T_not_space (e : Env) :
-    e.isSpace '-' = false ∧ e.isSpace ':' = false ∧ e.isSpace 'T' = false := by
-  refine ⟨?_, ?_, ?_⟩ <;> (rw [isSpace_ascii e _ (by decide)]; decide)
-
 /-- **Full strength** (for the format `%Y-%m-%d`): every `datetime.date` is written by
 `DateConverter.serialize` in a form that `deserialize` reads back with the same format. -/
 def DateFormatRoundTrip : Prop :=
